@@ -79,9 +79,24 @@ def gen_spec(rng, fmt='NETCDF4', big=0.0):
             'dt': dt, 'dims': vd, 'base': base, 'attrs': {}}
         base += 1000.
         for j in range(rng.randrange(0, 4)):
+            # (CF range attributes whose type is not the variable's are attributes
+            # like any other: names and VALUES come back)
             k = rng.choice(['units', 'long_name', 'scale', 'valid', 'flag', 'arr', 'variables',
-                            'title', 'history'])
+                            'title', 'history', 'actual_range'])
             v['attrs'][k] = _gen_attr(rng)
+        if dt in ('f4', 'f8') and rng.random() < 0.15:
+            # non-finite numbers are data like any other (unmasked: bit-identical)
+            v['nonfinite'] = [[rng.randrange(0, 50), rng.choice(['nan', 'inf', '-inf'])]
+                              for _ in range(rng.randrange(1, 3))]
+        if dt in ('f4', 'f8') and not v.get('nonfinite') and rng.random() < 0.15:
+            # CF range attributes stored with another type than the variable's, wide
+            # enough to hold every value (netCDF4 masks data outside the range when
+            # reading, which is the convention's meaning and not the subject here)
+            ot = 'f8' if dt == 'f4' else 'f4'
+            for k in rng.sample(['valid_min', 'valid_max', 'valid_range'], rng.randrange(1, 3)):
+                v['attrs'][k] = {'valid_min': {'t': ot, 'v': -273.15},
+                                 'valid_max': {'t': ot, 'v': 6.02e23},
+                                 'valid_range': {'t': ot + 'a', 'v': [-273.15, 6.02e23]}}[k]
         if dt in ('f4', 'f8') and rng.random() < 0.12:
             # a descriptive attribute that some writers also understand as a knob
             v['attrs']['least_significant_digit'] = {'t': 'i4', 'v': rng.choice([1, 2, 3])}
@@ -162,6 +177,8 @@ def _attr(x):
         return np.float32(x['v'])
     if t == 'f4a':
         return np.array(x['v'], dtype='f4')
+    if t == 'f8a':
+        return np.array(x['v'], dtype='f8')
     if t == 'i4a':
         return np.array(x['v'], dtype='i4')
     raise HarnessError(t)
@@ -179,6 +196,9 @@ def _values(v, shape):
         if n > 2:
             a[1] = np.finfo(a.dtype).tiny / 4      # denormal
             a[2] = -0.0
+        for i, what in v.get('nonfinite', []):
+            if n:
+                a[i % n] = float(what)
     elif dt == 'i1':
         a = ((np.arange(n) * 7) % 200 - 100).astype('i1')
     elif dt == 'i2':
